@@ -76,6 +76,15 @@ func cacheKey(kind byte, digest hotstuff.Hash, signature hotstuff.QuorumSignatur
 	participants.ForEach(func(id hotstuff.ID) {
 		_, _ = key.Write(id.ToBytes())
 	})
+	// a list signature is a sequence of byte strings that ToBytes concatenates: the same bytes cut at other
+	// boundaries are a different (and invalid) signature, so the boundaries belong to the key.
+	if list, ok := signature.(interface{ EntryLengths() []int }); ok {
+		for _, length := range list.EntryLengths() {
+			var l [4]byte
+			binary.LittleEndian.PutUint32(l[:], uint32(length))
+			_, _ = key.Write(l[:])
+		}
+	}
 	_, _ = key.Write(signature.ToBytes())
 	return key.String()
 }
